@@ -35,6 +35,7 @@ def own_input(y0: int, y1: int, y2: int, y3: int, y4: int, yr: int) -> bool:
     pre: (NEL >= 5 or y4 == 0) and (NEL >= 4 or y3 == 0) and (FIX[0] < 0 or y0 == FIX[0]) and (FIX[1] < 0 or y1 == FIX[1])
     post: _
     """
+    xs.path_start()
     ys = [xs.pick(y, 0, YMAX + 1) for y in (y0, y1, y2, y3, y4)]
     yr = xs.pick(yr, 0, 2)
     texts = [ELEMS[i][2] for i in range(NEL)]
